@@ -9,6 +9,9 @@
      A <tree>                     same grammar as nsverif parsedump
      PD syntax <message_> <start> <end> <n labels> {<start> <end> <label hex>}
      PULLED <tokens pulled from the lexer> <1 if the lexer was asked past its last token>
+     L <named AST>                Parser.to_lang of the tree, printed in the grammar of the `ast` line of
+                                  `nsverif lang` (harness/src/lang.rs) with every id `-` (local ranges 0 0);
+                                  number literals are read by OCaml's float_of_string (glue)
      MTOK same | MTOK differ <first differing index> | MTOK lexpanic | MTOK fuel | MTOK not-utf8
      MA / MPD / MPULLED           (2), only when the model lexer's tokens differ from the real ones
      END <index> *)
@@ -102,6 +105,69 @@ and dump_stmt b (s : sstmt) =
   | YNext s -> Buffer.add_string b " NX"; sp b s
   | YExpr (e, s) -> Buffer.add_string b " EX"; dump_expr b e; sp b s
 
+(* ---- the named Lang AST, in the grammar of harness/src/lang.rs `ast` *)
+let rec pos_of_int64 (i : int64) : positive =
+  if i = 1L then XH
+  else if Int64.logand i 1L = 0L then XO (pos_of_int64 (Int64.shift_right_logical i 1))
+  else XI (pos_of_int64 (Int64.shift_right_logical i 1))
+let z_of_bits (i : int64) : z = if i = 0L then Z0 else Zpos (pos_of_int64 i)
+let rec int64_of_pos (p : positive) : int64 =
+  match p with
+  | XH -> 1L
+  | XO q -> Int64.shift_left (int64_of_pos q) 1
+  | XI q -> Int64.logor (Int64.shift_left (int64_of_pos q) 1) 1L
+let bits_of_z (x : z) : int64 = match x with Z0 -> 0L | Zpos p -> int64_of_pos p | Zneg _ -> 0L
+
+(* str::parse::<f64> on a number token (digits, optionally `.` digits) *)
+let num_of_text (t : z list) : f64 =
+  match float_of_string_opt (text t) with
+  | Some f -> of_bits (z_of_bits (Int64.bits_of_float f))
+  | None -> of_bits (z_of_bits (Int64.bits_of_float nan))
+
+let rec lang_expr b (e : expr) =
+  match e with
+  | ENum x -> Printf.bprintf b " N %016Lx" (bits_of_z (to_bits x))
+  | EStr s -> Printf.bprintf b " S %s" (hex s)
+  | EInterp segs ->
+      Printf.bprintf b " I %d" (List.length segs);
+      List.iter (function
+        | SegLit s -> Printf.bprintf b " L %s" (hex s)
+        | SegVar (n, _) -> Printf.bprintf b " V %s -" (hex n)) segs
+  | EBool v -> Printf.bprintf b " B %d" (if v then 1 else 0)
+  | ENull -> Buffer.add_string b " Z"
+  | EVar (n, _) -> Printf.bprintf b " V %s -" (hex n)
+  | EBin (op, l, r) -> Printf.bprintf b " O %s" (binop_name op); lang_expr b l; lang_expr b r
+  | EUn (op, a) -> Printf.bprintf b " U %s" (unop_name op); lang_expr b a
+  | EArr es -> Printf.bprintf b " A %d" (List.length es); List.iter (lang_expr b) es
+  | EIdx (a, i) -> Buffer.add_string b " X"; lang_expr b a; lang_expr b i
+  | EMember (o, f) -> Buffer.add_string b " M"; lang_expr b o; Printf.bprintf b " %s" (hex f)
+  | ECall (c, args, _) ->
+      Buffer.add_string b " C"; lang_expr b c; Printf.bprintf b " %d" (List.length args);
+      List.iter (lang_expr b) args; Buffer.add_string b " -"
+
+let rec lang_block b (ss : stmt list) =
+  Printf.bprintf b " %d" (List.length ss); List.iter (lang_stmt b) ss
+
+and lang_stmt b (s : stmt) =
+  match s with
+  | SFun (_, n, ps, body, _, _, _) ->
+      Printf.bprintf b " F - %s %d" (hex n) (List.length ps);
+      List.iter (fun p -> Printf.bprintf b " %s" (hex p)) ps;
+      lang_block b body; Buffer.add_string b " - 0 0"
+  | SMake (_, x, _, e) -> Printf.bprintf b " K - %s -" (hex x); lang_expr b e
+  | SSet (_, x, _, e) -> Printf.bprintf b " T - %s -" (hex x); lang_expr b e
+  | SSetIdx (_, t, e) -> Buffer.add_string b " J -"; lang_expr b t; lang_expr b e
+  | SIf (_, c, t, f) ->
+      Buffer.add_string b " IF -"; lang_expr b c; lang_block b t;
+      (match f with Some fb -> Buffer.add_string b " 1"; lang_block b fb | None -> Buffer.add_string b " 0")
+  | SLoop (_, c, body) -> Buffer.add_string b " W -"; lang_expr b c; lang_block b body
+  | SBlock (_, body) -> Buffer.add_string b " BL -"; lang_block b body
+  | SRet (_, None) -> Buffer.add_string b " R - 0"
+  | SRet (_, Some e) -> Buffer.add_string b " R - 1"; lang_expr b e
+  | SBreak _ -> Buffer.add_string b " BR -"
+  | SNext _ -> Buffer.add_string b " NX -"
+  | SExpr (_, e) -> Buffer.add_string b " EX -"; lang_expr b e
+
 let print_parse oc prefix (toks : token list) =
   match parse_program parser_variant_src toks with
   | NoFuel -> Printf.fprintf oc "%sFUEL\n" prefix
@@ -117,7 +183,10 @@ let print_parse oc prefix (toks : token list) =
          | Some l -> Printf.fprintf oc " 1 %d %d %s" (int_of_nat a) (int_of_nat e) (hex l)
          | None -> output_string oc " 0");
         output_string oc "\n") p.p_diags;
-      Printf.fprintf oc "%sPULLED %d %d\n" prefix (int_of_nat p.p_pulled) (if p.p_lexed_all then 1 else 0)
+      Printf.fprintf oc "%sPULLED %d %d\n" prefix (int_of_nat p.p_pulled) (if p.p_lexed_all then 1 else 0);
+      let lb = Buffer.create 1024 in
+      lang_block lb (to_lang num_of_text p.p_stmts);
+      Printf.fprintf oc "%sL%s\n" prefix (Buffer.contents lb)
 
 let tok_same (a : token) (b : token) =
   a.t_kind = b.t_kind && a.t_owned = b.t_owned
